@@ -77,6 +77,11 @@ func RunW1(p *Profile, plan, sched *simrt.Source, trace bool) *RunOut {
 		o.Infra = run.EndInfo
 		return o
 	}
+	if RaceMode {
+		CollectRaces(o)
+		o.NonTrivial = run.St.Decisions > 0
+		return o
+	}
 	views := BuildViews(run, sc.Calls)
 	rs := ruleSetOf(rules)
 	var all []Violation
